@@ -404,7 +404,16 @@ func genSumCase(r *Rng, prop string) []Op {
 				lay = nearLayout(r, g.lay)
 				mismatch = true
 			}
-			ops = g.writeFile(ops, "src/"+dir+"/"+name, lay, 1+r.Intn(3))
+			if f > 0 && r.Chance(1, 5) {
+				// same layout, another aggregation method and xFilesFactor: the sum reports the
+				// first file's header
+				sa, sx := g.agg, g.xff
+				g.agg, g.xff = 1+r.Intn(6), math.Float32bits(xffChoices[r.Intn(len(xffChoices))])
+				ops = g.writeFile(ops, "src/"+dir+"/"+name, lay, 1+r.Intn(3))
+				g.agg, g.xff = sa, sx
+			} else {
+				ops = g.writeFile(ops, "src/"+dir+"/"+name, lay, 1+r.Intn(3))
+			}
 			if ok, _ := pathMatch(pat, name); ok {
 				files = append(files, "src/"+dir+"/"+name)
 			}
